@@ -46,6 +46,8 @@ def run(repo: Repo, tier: str, res: CheckResult, seed: int = 0) -> None:
     recipe_order(repo, res)
     retort_as_provider(repo, res)
     one_shot_recipes(repo, res)
+    recursion_by_whole_location(repo, res)
+    routing_decisions_not_memoised(repo, res)
     res.assumptions = list(ASSUMPTIONS)
 
 
@@ -891,3 +893,110 @@ def facade_functions_forward_the_recipe(repo: Repo, res: CheckResult) -> None:
                                 f"`{norm(c)[:80]}`: this path of `{name}` does not pass its `recipe` argument on -- the providers the caller "
                                 "put in front of the recipe are never consulted for this call", c.lineno))
     res.count("FACADE.functions-with-recipe", n, 2)
+
+
+# ------------------------------------------------------------------------------------------ recursion stubs / routing memos
+def recursion_by_whole_location(repo: Repo, res: CheckResult) -> None:
+    """A recursion stub answers a request WITHOUT a search through the recipe. That is the first-match answer only when the
+    earlier request it stands for is the same location: predicates see field names, owners and generic positions, not just
+    the type. The resolver must therefore recognise a recursive occurrence by comparing whole locations and key its stubs by the
+    location; a projection (`loc.type`) answers `Node` inside `Node.children: List[Node]` with the stub of the root `Node`,
+    and a provider bound to that nested location (`loader(P[Node].children[Node], f)`) is never consulted."""
+    m = repo.mod("retort/operating_retort")
+    ci = m.classes.get("LocatedRequestCallableRecursionResolver")
+    if ci is None:
+        raise AnalysisError("anchor vanished: LocatedRequestCallableRecursionResolver")
+    n = 0
+    for mname in ("track_request", "track_response"):
+        fn = ci.methods.get(mname)
+        if fn is None:
+            raise AnalysisError(f"anchor vanished: LocatedRequestCallableRecursionResolver.{mname}")
+        req = func_params(fn)[1]
+        # locals that hold the last location / a projection of it
+        whole = {f"{req}.last_loc"}
+        proj: Dict[str, str] = {}
+        for a in ast.walk(fn):
+            if isinstance(a, ast.Assign) and len(a.targets) == 1 and isinstance(a.targets[0], ast.Name):
+                v = norm(a.value)
+                if v == f"{req}.last_loc":
+                    whole.add(a.targets[0].id)
+                elif v.startswith(f"{req}.last_loc."):
+                    proj[a.targets[0].id] = v
+        # comparisons over the stack
+        for g in ast.walk(fn):
+            if isinstance(g, ast.comprehension) and norm(g.iter) == f"{req}.loc_stack" and isinstance(g.target, ast.Name):
+                lv = g.target.id
+                par = m.parent(g)
+                for c in ast.walk(par):
+                    if isinstance(c, ast.Compare):
+                        n += 1
+                        res.evaluated(f"recursion:{mname}:compare:{norm(c)}", True)
+                        sides = [norm(c.left)] + [norm(x) for x in c.comparators]
+                        if not (lv in sides and any(sd in whole for sd in sides)):
+                            res.add(Finding("C09", "RECURSION.occurrence-by-projection", m.rel, f"{ci.name}.{mname}", norm(c),
+                                            f"`{norm(c)}` decides whether the request is a recursive occurrence by a projection of the "
+                                            "location: the request then gets the stub of ANOTHER location of the same type and the "
+                                            "recipe is not searched for it -- a provider whose predicate matches only the nested "
+                                            "location (field name, owner, generic position) is never consulted", c.lineno))
+        # the stub table is keyed by the location
+        for sub in ast.walk(fn):
+            key = None
+            if isinstance(sub, ast.Subscript) and isinstance(sub.value, ast.Attribute) and norm(sub.value.value) == "self":
+                key = sub.slice
+            elif isinstance(sub, ast.Call) and isinstance(sub.func, ast.Attribute) and sub.func.attr in ("pop", "get", "setdefault") \
+                    and isinstance(sub.func.value, ast.Attribute) and norm(sub.func.value.value) == "self" and sub.args:
+                key = sub.args[0]
+            elif isinstance(sub, ast.Compare) and len(sub.ops) == 1 and isinstance(sub.ops[0], (ast.In, ast.NotIn)) \
+                    and isinstance(sub.comparators[0], ast.Attribute) and norm(sub.comparators[0].value) == "self":
+                key = sub.left
+            if key is None:
+                continue
+            n += 1
+            res.evaluated(f"recursion:{mname}:key:{norm(key)}", True)
+            k = norm(key)
+            if k in proj or k.startswith(f"{req}.last_loc."):
+                res.add(Finding("C09", "RECURSION.occurrence-by-projection", m.rel, f"{ci.name}.{mname}", f"stub key {proj.get(k, k)}",
+                                f"the stub table is keyed by `{proj.get(k, k)}`, a projection of the location: stubs of different "
+                                "locations of one type are one entry, the response of one search is handed to the other location",
+                                getattr(key, "lineno", fn.lineno)))
+            elif k not in whole:
+                raise AnalysisError(f"{ci.name}.{mname}: cannot tell what the stub table key `{k}` is")
+    res.count("RECURSION.location-uses", n, 4)
+
+
+def routing_decisions_not_memoised(repo: Repo, res: CheckResult) -> None:
+    """route_handler answers from the (checker, handler) items in recipe order; a checker may look at the whole request (type
+    arguments, field names, the stack). A router keeps no state between requests: a remembered decision keyed by less than the
+    request (origin, offset) serves a later request with the handler chosen for another one -- List[str] by the provider of
+    List[int] -- or skips a provider that would match."""
+    m = repo.mod("retort/routers")
+    n = 0
+    for ci in m.classes.values():
+        if "route_handler" not in ci.methods:
+            continue
+        n += 1
+        res.evaluated(f"router-stateless:{ci.name}", True)
+        for mname, fn in ci.methods.items():
+            if mname in ("__init__", "__new__"):
+                continue
+            for st in ast.walk(fn):
+                targets = []
+                if isinstance(st, ast.Assign):
+                    targets = st.targets
+                elif isinstance(st, (ast.AugAssign, ast.AnnAssign)):
+                    targets = [st.target]
+                for t in targets:
+                    base = t.value if isinstance(t, ast.Subscript) else t
+                    if isinstance(base, ast.Attribute) and norm(base.value) == "self":
+                        res.add(Finding("C09", "ROUTER.decision-remembered", m.rel, f"{ci.name}.{mname}", norm(st)[:100],
+                                        f"`{norm(st)[:80]}`: the router stores something while routing; its answer is a function of the whole "
+                                        "request (checkers see type arguments, field names and the stack), a decision remembered under a "
+                                        "smaller key is replayed for requests the skipped checkers would have answered differently, so the "
+                                        "serving provider is no longer the first match in recipe order", st.lineno))
+            for c in ast.walk(fn):
+                if isinstance(c, ast.Call) and isinstance(c.func, ast.Attribute) and c.func.attr in ("setdefault", "update", "append", "add") \
+                        and isinstance(c.func.value, ast.Attribute) and norm(c.func.value.value) == "self":
+                    res.add(Finding("C09", "ROUTER.decision-remembered", m.rel, f"{ci.name}.{mname}", norm(c)[:100],
+                                    f"`{norm(c)[:80]}`: the router modifies its own state while routing (see ROUTER.decision-remembered)",
+                                    c.lineno))
+    res.count("ROUTER.stateless-routers", n, 2)
